@@ -3,12 +3,12 @@ SPEC = {'level': 'exploration',
  'assumptions': ['own calculators (kits/consensus_ref: static sigop scan, BIP16 accurate P2SH count, BIP141 witness count and x4 scaling; sizes/weight from the fields; BIP34 minimal height push) are the reference',
                  'legacy sigops after OP_RETURN are counted (static scan of the whole script), sigop bytes inside push data or after a truncated push are not',
                  'transaction-count bound (4 x count <= 4,000,000) is not reachable independently of the size bound and is only modelled; blocks are tuned with the reference calculators, probes that miss the target are still judged but not counted as boundary cases'],
- 'stages': [gen('vh_c06', 'c06_limits', 300, 5000, min_cases_quick=100,
+ 'stages': [gen('vh_c06', 'c06_limits', 300, 5000, min_cases_quick=40, max_seconds_quick=900, max_seconds_thorough=7200,
                 floors={'accept': 0.5, 'reject:bad-blk-sigops': 0.2, 'reject:bad-blk-weight': 0.08, 'reject:bad-blk-length': 0.03, 'reject:bad-cb-height': 0.1,
                         'sigops-near-limit-3-kinds': 0.3, 'sigops@limit': 0.08, 'sigops@limit+1': 0.08, 'weight@limit': 0.03, 'weight@limit+1': 0.03,
                         'kind:p2sh': 0.3, 'kind:p2wsh': 0.3, 'kind:p2sh-p2wsh': 0.3, 'kind:scriptsig': 0.3, 'kind:p2wpkh': 0.3},
                 rule='blocks at limit+-delta; non-trivial = sigop probe within +-4 of 80,000 mixing >=3 sigop kinds, or weight/size probe within +-4 of the limit'),
-            gen('vh_c06', 'c06_sigops', 150000, 3000000, min_cases_quick=50000,
+            gen('vh_c06', 'c06_sigops', 150000, 3000000, min_cases_quick=15000, max_seconds_quick=600, max_seconds_thorough=3600,
                 floors={'legacy-sigops': 0.3, 'p2sh-sigops': 0.03, 'witness-sigops': 0.05, 'truncated-or-accurate-multisig': 0.1},
                 rule='per-script / per-tx counters vs reference; non-trivial = >=2 sigop kinds non-zero, or truncated push / OP_n+CHECKMULTISIG present')]}
 
